@@ -61,6 +61,12 @@ prop("C13", [
     dict(POOL_B, checks=["allocate_address/C13"]),
 ], explanation="dispatch on message type, foreign server-id refused before any pool access, errors leave the table unchanged, a reply touches only the row of yiaddr and echoes xid/chaddr/giaddr/flags",
     assumptions=["ResponseOptions / DhcpOptions accessor contracts assumed in unit dhcphandlers (HashMap glue); the DhcpParse impls behind them are proved in unit dhcpgetters"])
+prop("C18", [
+    dict(engine="verus", unit="poolschema"),
+    dict(engine="verus", unit="pool", fns=["Pool::allocate_address"]),
+    dict(POOL_B, checks=["reopen/", "allocate_address/C13"]),
+], explanation="setup_db: rows preserved, ends at version 1, newer version refused before any write; allocate_address: exactly one write, after every error return; reopen/upgrade on file-backed SQLite bounded",
+    assumptions=["SQLite durability/atomicity of an autocommitted statement (kill-at-any-instant is NOT decided)", "DDL statements preserve rows (assumed; engine B bounded)"])
 prop("C20", [
     dict(POOL_B, checks=["sql_metrics", "sql_list"]),
 ], level="exploration", explanation="gauge query and lease listing query against the row set, bounded exhaustive on real SQLite")
